@@ -289,7 +289,7 @@ func H17c_dagverify() {
 // PRIVATE JWK goes through the two places that look at the embedded key - parseSignatureParams and the
 // signature verifier (signature verdict: verifies, which is what jwx answers for a private key: it uses
 // crypto.Signer.Public()). The private fake looks private under every check jwx offers: it implements
-// jwk.ECDSAPrivateKey, Raw(&ecdsa.PrivateKey) succeeds, Raw(&interface{}) yields *ecdsa.PrivateKey.
+// jwk.ECDSAPrivateKey, Raw(&ecdsa.PrivateKey) succeeds, Raw(&interface{}) and Raw(&crypto.Signer) yield *ecdsa.PrivateKey.
 type h17PrivKey struct{ jwk.ECDSAPrivateKey }
 
 func (k *h17PrivKey) Raw(v interface{}) error {
@@ -297,6 +297,9 @@ func (k *h17PrivKey) Raw(v interface{}) error {
 	case *ecdsa.PrivateKey:
 		return nil
 	case *crypto2.PublicKey: // = *interface{}
+		*p = &ecdsa.PrivateKey{}
+		return nil
+	case *crypto2.Signer: // jwx assigns the raw key when it is assignable to the target: a private key is a crypto.Signer
 		*p = &ecdsa.PrivateKey{}
 		return nil
 	}
